@@ -1,14 +1,189 @@
 package engine
 
-import "verif/sim/core"
+import (
+	"context"
+	"errors"
+	"net"
+	"sync"
+	"time"
 
-// BackendSpec describes one in-bubble gRPC backend (filled in by proxy engines).
+	"google.golang.org/grpc"
+	"google.golang.org/grpc/credentials/insecure"
+	"google.golang.org/grpc/reflection"
+	rpb "google.golang.org/grpc/reflection/grpc_reflection_v1alpha"
+	"google.golang.org/grpc/test/bufconn"
+
+	"verif/sim/core"
+)
+
+// BackendSpec describes one real grpc-go server running inside the bubble and
+// reached by larking through a *grpc.ClientConn over an in-memory connection.
 type BackendSpec struct {
 	Tag      string   `json:"tag"`
-	Services []string `json:"services"`
+	Services []string `json:"services"` // implemented and (by default) advertised
 }
 
-type backend struct{}
+// svcProvider is the ServiceInfoProvider of a backend's reflection service:
+// the advertised set can differ from the implemented one and can change
+// between two registrations of the same connection.
+type svcProvider struct {
+	mu         sync.Mutex
+	advertised []string
+}
 
-func (mr *muxRun) startBackends(sim *core.Sim, world *World) error { return nil }
-func (mr *muxRun) stopBackends()                                  {}
+func (p *svcProvider) GetServiceInfo() map[string]grpc.ServiceInfo {
+	p.mu.Lock()
+	defer p.mu.Unlock()
+	out := map[string]grpc.ServiceInfo{}
+	for _, s := range p.advertised {
+		out[s] = grpc.ServiceInfo{}
+	}
+	return out
+}
+
+func (p *svcProvider) set(svcs []string) {
+	p.mu.Lock()
+	p.advertised = append([]string(nil), svcs...)
+	p.mu.Unlock()
+}
+
+// faultyReflection wraps the reflection service so that a registration can be
+// made to fail after a number of replies.
+type faultyReflection struct {
+	rpb.ServerReflectionServer
+	mu        sync.Mutex
+	failAfter int // <0: never
+}
+
+var errReflection = errors.New("sim: reflection stream broken on purpose")
+
+type countingStream struct {
+	rpb.ServerReflection_ServerReflectionInfoServer
+	f *faultyReflection
+	n int
+}
+
+func (s *countingStream) Send(m *rpb.ServerReflectionResponse) error {
+	s.f.mu.Lock()
+	limit := s.f.failAfter
+	s.f.mu.Unlock()
+	if limit >= 0 && s.n >= limit {
+		return errReflection
+	}
+	s.n++
+	return s.ServerReflection_ServerReflectionInfoServer.Send(m)
+}
+
+func (f *faultyReflection) ServerReflectionInfo(stream rpb.ServerReflection_ServerReflectionInfoServer) error {
+	return f.ServerReflectionServer.ServerReflectionInfo(&countingStream{ServerReflection_ServerReflectionInfoServer: stream, f: f})
+}
+
+func (f *faultyReflection) setFailAfter(n int) {
+	f.mu.Lock()
+	f.failAfter = n
+	f.mu.Unlock()
+}
+
+type backend struct {
+	spec     *BackendSpec
+	lis      *bufconn.Listener
+	srv      *grpc.Server
+	cc       *grpc.ClientConn
+	world    *World
+	provider *svcProvider
+	refl     *faultyReflection
+	mu       sync.Mutex
+	conns    []net.Conn
+	dead     bool
+}
+
+func newBackend(sim *core.Sim, spec *BackendSpec, reqs map[int]*reqState) (*backend, error) {
+	b := &backend{spec: spec}
+	b.lis = bufconn.Listen(1 << 20)
+	b.srv = grpc.NewServer()
+	b.world = &World{sim: sim, reqs: reqs, tag: spec.Tag}
+	for _, svc := range spec.Services {
+		b.srv.RegisterService(b.world.serviceDesc(svc), b.world)
+	}
+	b.provider = &svcProvider{}
+	b.provider.set(spec.Services)
+	b.refl = &faultyReflection{ServerReflectionServer: reflection.NewServer(reflection.ServerOptions{Services: b.provider}), failAfter: -1}
+	rpb.RegisterServerReflectionServer(b.srv, b.refl)
+	go b.srv.Serve(b.lis)
+	cc, err := grpc.NewClient("passthrough:///"+spec.Tag,
+		grpc.WithContextDialer(func(ctx context.Context, _ string) (net.Conn, error) {
+			b.mu.Lock()
+			dead := b.dead
+			b.mu.Unlock()
+			if dead {
+				return nil, errors.New("sim: backend is down")
+			}
+			c, err := b.lis.DialContext(ctx)
+			if err == nil {
+				b.mu.Lock()
+				b.conns = append(b.conns, c)
+				b.mu.Unlock()
+			}
+			return c, err
+		}),
+		grpc.WithTransportCredentials(insecure.NewCredentials()),
+	)
+	if err != nil {
+		return nil, err
+	}
+	b.cc = cc
+	return b, nil
+}
+
+// kill closes the connection(s) to the backend and keeps it down.
+func (b *backend) kill() {
+	b.mu.Lock()
+	b.dead = true
+	conns := b.conns
+	b.conns = nil
+	b.mu.Unlock()
+	for _, c := range conns {
+		c.Close()
+	}
+}
+
+func (b *backend) stop() {
+	b.cc.Close()
+	b.srv.Stop()
+	b.lis.Close()
+}
+
+func (mr *muxRun) startBackends(sim *core.Sim, world *World) error {
+	for i := range mr.sc.Backends {
+		b, err := newBackend(sim, &mr.sc.Backends[i], world.reqs)
+		if err != nil {
+			return err
+		}
+		mr.backends = append(mr.backends, b)
+		if mr.sc.SkipRegister {
+			continue
+		}
+		ctx, cancel := context.WithTimeout(context.Background(), 30*time.Second)
+		err = mr.mux.RegisterConn(ctx, b.cc)
+		cancel()
+		if err != nil {
+			return err
+		}
+	}
+	return nil
+}
+
+func (mr *muxRun) stopBackends() {
+	for _, b := range mr.backends {
+		b.stop()
+	}
+}
+
+func (mr *muxRun) backendByTag(tag string) *backend {
+	for _, b := range mr.backends {
+		if b.spec.Tag == tag {
+			return b
+		}
+	}
+	return nil
+}
